@@ -1,5 +1,5 @@
 """C18 - the builder sees each source line exactly once, in order, then one EOF."""
-from . import parser_rules as pr, line_rules as lr, misc_rules as ms
+from . import parser_rules as pr, line_rules as lr, misc_rules as ms, error_rules as er
 
 META = {
     "level": "other",
@@ -26,3 +26,5 @@ def run(rep):
     lr.rule_scanner(rep, "C18.line", "C18.scan")
     lr.rule_token(rep, "C18.token")
     ms.rule_formatter(rep)
+    # "delivered or reported": only an identical message (which includes the position) is reported once
+    er.rule_cap(rep, "C18.cap")
